@@ -1,8 +1,14 @@
 (* Instantiation of the schema semantics at the regenerated declarations. *)
 From Ctap Require Export Schema Procs Generated.
 
+Local Open Scope string_scope.
+Definition gen_const (f : feats) (name : string) : Z :=
+  match assoc name (int_consts f) with Some z => z | None => -1 end.
+Definition gen_arr (f : feats) (name : string) : list Z :=
+  match assoc name (arr_consts f) with Some l => l | None => [] end.
+
 Definition gen_env (f : feats) : env :=
-  resolve f (raw_decls f) (ka_webauthn_KNOWN_ALGS f) (k_webauthn_COUNT_KNOWN_ALGS f).
+  resolve f (raw_decls f) (gen_arr f "webauthn::KNOWN_ALGS") (gen_const f "webauthn::COUNT_KNOWN_ALGS").
 
 Definition gen_tables (f : feats) : tables := tables_of f (raw_decls f) (int_consts f).
 
@@ -21,10 +27,10 @@ Definition env_conforms (gen spec : env) : bool := env_covers gen spec && env_no
 
 (* names of the declarations of [spec] that differ in [gen] (diagnostics for the witness search) *)
 Definition env_diff (gen spec : env) : list string :=
-  map fst (filter (fun p => match lookup gen (fst p) with
+  (map fst (filter (fun p => match lookup gen (fst p) with
                             | Some d => negb (decl_eqb d (snd p))
                             | None => true end) spec)
   ++ map fst (filter (fun p => match snd p with
                                | DOpaque => false
                                | _ => match lookup spec (fst p) with Some _ => false | None => true end
-                               end) gen).
+                               end) gen))%list.
